@@ -139,6 +139,20 @@ def _answer(m: RefGraph, op):
             return ("LOOKUP",)
         t = m.bchange.get(bd)
         return ("VAL", {r: geom.canon(d) for r, d in t.items()} if t else None)
+    if q in ("atom_changes_index", "bond_changes_index"):
+        if not m.has_changes:
+            return ("SKIP",)
+        t = m.achange.get(a) if q == "atom_changes_index" else m.bchange.get(B(a, b))
+        if not t:
+            return ("LOOKUP",)      # no change stored for this centre (or no such centre)
+        return ("VAL", {r: geom.canon(d) for r, d in t.items()})
+    if q in ("atom_stereo_index", "bond_stereo_index"):
+        if not m.is_stereo:
+            return ("SKIP",)
+        d = m.astereo.get(a) if q == "atom_stereo_index" else m.bstereo.get(B(a, b))
+        if d is None:
+            return ("LOOKUP",)
+        return ("VAL", geom.canon(d))
     if q in ("get_formed_bonds", "get_broken_bonds", "get_fleeting_bonds"):
         if not m.is_reaction:
             return ("SKIP",)
@@ -221,6 +235,12 @@ def _ask(R, g, op):
             return None
         tt = {R.ENUM_ROLE[r]: geom.canon(R.rd_desc(s)) for r, s in t.items() if s is not None}
         return tt or None
+    if q in ("atom_changes_index", "bond_changes_index"):
+        t = g.atom_stereo_changes[a] if q == "atom_changes_index" else g.bond_stereo_changes[frozenset((a, b))]
+        return {R.ENUM_ROLE[r]: geom.canon(R.rd_desc(x)) for r, x in t.items() if x is not None}
+    if q in ("atom_stereo_index", "bond_stereo_index"):
+        x = g.atom_stereo[a] if q == "atom_stereo_index" else g.bond_stereo[frozenset((a, b))]
+        return geom.canon(R.rd_desc(x))
     if q in ("get_formed_bonds", "get_broken_bonds", "get_fleeting_bonds"):
         return sorted(tuple(sorted(x)) for x in getattr(g, q)())
     if q == "active_atoms":
@@ -826,13 +846,32 @@ def check_from_graphs(w, sl, inputs, op):
         full = all(d[2] is not None for *_x, d in src.all_descs())
         ev = exp.view()
         fields = ["class", "atoms", "bonds", "neighbors", "components"]
-        if side_kind == "SMG":
-            ev["astereo"] = {a: geom.canon(d) for a, d in src.astereo.items()}
-            ev["bstereo"] = {tuple(sorted(b)): geom.canon(d) for b, d in src.bstereo.items()}
-            if full and (TSm is None or all(d[2] is not None for *_x, d in TSm.all_descs())) \
-                    and all(d[2] is not None for *_x, d in (Pm if src is Rm else Rm).all_descs()):
-                fields += ["astereo", "bstereo"]
         bad = [f for f in fields if rv.get(f) != ev.get(f)]
+        if side_kind == "SMG":
+            # descriptors, centre by centre.  Not judged: centres whose own
+            # descriptor has parity None (statement: "for fully specified
+            # parities"), and centres where R and P agree while the transition
+            # state carries a parity-None descriptor (the None rule makes all
+            # three "equal"; which of them is stored is not specified).
+            other = Pm if src is Rm else Rm
+            for fld, tab, otab, ttab, key in (
+                    ("astereo", src.astereo, other.astereo, TSm.astereo if TSm is not None else {}, lambda k: k),
+                    ("bstereo", src.bstereo, other.bstereo, TSm.bstereo if TSm is not None else {}, lambda k: tuple(sorted(k)))):
+                got = rv.get(fld, {})
+                for c in set(tab) | {k2 for k2 in (frozenset(x) if fld == "bstereo" else x for x in got)}:
+                    d = tab.get(c)
+                    g_ = got.get(key(c))
+                    if d is not None and d[2] is None:
+                        continue
+                    t_ = ttab.get(c)
+                    o_ = otab.get(c)
+                    if t_ is not None and t_[2] is None:
+                        continue
+                    if (d is not None and d[2] is None) or (o_ is not None and o_[2] is None):
+                        continue
+                    if geom.canon(d) != g_:
+                        bad.append(fld)
+                        break
         # element check
         for a, at in rv["atom_attrs"].items():
             if dict(at).get("atom_type") != src.atoms.get(a, {}).get("atom_type"):
@@ -908,7 +947,11 @@ def enum_open(w, op):
         R = w.R
         kw = dict(stereo=stereo, stereo_change=changes)
         if l1 is not None:
-            kw["atom_labels"] = (dict(l1), dict(l2))
+            # the caller's dictionaries in an order of their own (sorted by
+            # identifier / reversed), not in the graphs' insertion order
+            o1 = sorted(l1, reverse=bool(op.get("stereo")))
+            o2 = sorted(l2, reverse=not bool(op.get("changes")))
+            kw["atom_labels"] = ({a: l1[a] for a in o1}, {a: l2[a] for a in o2})
         gs.real = R.vf2pp_all_isomorphisms(a.real, b.real, **kw)
         gs.data["cls"] = _cls(a) + "/" + _cls(b)
     w.slots[dst] = gs
